@@ -13,6 +13,8 @@ import (
 	"verifharness/fw"
 	"verifharness/gen"
 
+	disttypes "github.com/chain4energy/c4e-chain/x/cfedistributor/types"
+	minttypes "github.com/chain4energy/c4e-chain/x/cfeminter/types"
 	vesttypes "github.com/chain4energy/c4e-chain/x/cfevesting/types"
 	sdk "github.com/cosmos/cosmos-sdk/types"
 	authtypes "github.com/cosmos/cosmos-sdk/x/auth/types"
@@ -83,7 +85,16 @@ func bigCoins(denom string, exp int) sdk.Coin {
 	return sdk.NewCoin(denom, sdk.NewIntFromBigInt(v))
 }
 
-func newVestEnv(r *rand.Rand) (*vestEnv, error) {
+// vestOpts customises the genesis of a vesting environment.
+type vestOpts struct {
+	Minter      *minttypes.GenesisState
+	Distributor *disttypes.GenesisState
+	Record      bool
+}
+
+func newVestEnv(r *rand.Rand) (*vestEnv, error) { return newVestEnvOpts(r, vestOpts{}) }
+
+func newVestEnvOpts(r *rand.Rand, opt vestOpts) (*vestEnv, error) {
 	e := &vestEnv{everDelegated: map[string]bool{}, keys: map[string]chain.Key{}, traced: map[string]bool{}, derived: map[string]bool{}, depth: map[string]int{}, cov: map[string]int64{}}
 	e.moduleAddr = chain.ModuleAddr(vesttypes.ModuleName)
 	e.feeAddr = chain.ModuleAddr(authtypes.FeeCollectorName)
@@ -155,10 +166,11 @@ func newVestEnv(r *rand.Rand) (*vestEnv, error) {
 	}
 	vg.AccountVestingPools = append(vg.AccountVestingPools, &vesttypes.AccountVestingPools{Owner: e.owners[0].Bech(), VestingPools: []*vesttypes.VestingPool{mkPool("gp0", true), mkPool("gp1", true)}})
 	vg.AccountVestingPools = append(vg.AccountVestingPools, &vesttypes.AccountVestingPools{Owner: e.owners[1].Bech(), VestingPools: []*vesttypes.VestingPool{mkPool("np0", false)}})
-	n, err := chain.NewNode(chain.GenesisSpec{Time: gen.Epoch, Accounts: accs, Vesting: vg})
+	n, err := chain.NewNode(chain.GenesisSpec{Time: gen.Epoch, Accounts: accs, Vesting: vg, Minter: opt.Minter, Distributor: opt.Distributor})
 	if err != nil {
 		return nil, err
 	}
+	n.Record = opt.Record
 	e.n = n
 	return e, nil
 }
